@@ -129,6 +129,31 @@ pub fn register(r: &mut Registry) {
         }
         f
     });
+    // rows of a dozen features: vectorised / blocked distance code has a head, a body and a tail
+    r.scenario("big_kernel_gaussian_wide", "linfa-kernel", Kind::Claim, false, |p| {
+        let (x, _, _, _) = xy(p, 60 + (p.seed % 9) as usize, 11 + (p.seed % 3) as usize);
+        let mut f = Fingerprint::new();
+        let k = linfa_kernel::Kernel::params().method(linfa_kernel::KernelMethod::Gaussian(40.0)).kind(linfa_kernel::KernelType::Dense).transform(x.view());
+        f.arr("diagonal", &k.diagonal());
+        f.arr("sum", &k.sum());
+        f.arr("column3", &Array1::from(k.column(3)));
+        let k2 = linfa_kernel::Kernel::params().method(linfa_kernel::KernelMethod::Polynomial(1.0, 3.0)).kind(linfa_kernel::KernelType::Dense).transform(x.view());
+        f.arr("poly_sum", &k2.sum());
+        f
+    });
+    r.scenario("big_svm_gaussian_wide", "linfa-svm", Kind::Claim, false, |p| {
+        let (x, _, yb, _) = xy(p, 120 + (p.seed % 20) as usize, 12);
+        let mut f = Fingerprint::new();
+        match linfa_svm::Svm::<f64, bool>::params().gaussian_kernel(60.0).pos_neg_weights(1.0, 1.0).fit(&Dataset::new(x.clone(), yb)) {
+            Ok(m) => {
+                f.arr("alpha", &Array1::from(m.alpha.clone()));
+                f.one("rho", m.rho);
+                f.arr("predict", &m.predict(&queries(&x)));
+            }
+            Err(e) => f.err("fit", &e),
+        }
+        f
+    });
     r.scenario("big_svm_linear", "linfa-svm", Kind::Claim, false, |p| {
         let (x, _, yb, _) = xy(p, 600 + (p.seed % 50) as usize, 3);
         let mut f = Fingerprint::new();
